@@ -234,3 +234,82 @@ class Cw(Engine):
                         if m.group(2) == 'fatal':
                             st['fatal_after_bad'] += 1
         return st
+
+
+# ---------------------------------------------------------------------------
+# Engine `det` (C11): the same harness, run twice under different heap and stack poison.
+
+ALL_FORMATS = ['ustar', 'pax', 'paxr', 'gnutar', 'v7tar', 'odc', 'newc', 'bin', 'pwb', 'zip', '7zip', 'xar', 'iso9660',
+               'arbsd', 'arsvr4', 'mtree', 'mtree-classic', 'warc', 'shar', 'shardump', 'raw']
+DET_FILTERS = ['-', 'gzip', 'bzip2', 'xz', 'zstd', 'lz4', 'compress', 'b64', 'uu', 'lzip']
+DET_OPTS = {'zip': ['zip:compression=store', 'zip:compression=deflate', 'zip:zip64'], '7zip': ['7zip:compression=lzma1', '7zip:compression=deflate', '7zip:compression=store'],
+            'iso9660': ['iso9660:joliet', 'iso9660:rockridge', 'iso9660:zisofs'], 'mtree': ['mtree:all', 'mtree:sha256'],
+            'xar': ['xar:checksum=sha1', 'xar:compression=gzip', 'xar:toc-checksum=md5'], 'pax': ['pax:xattrheader=ALL'], 'newc': [], 'gnutar': []}
+POISONS = [(0x11, 0x22), (0xEE, 0xDD)]
+
+
+class Det(Cw):
+    name = 'det'
+
+    def __init__(self, nbase=40):
+        Cw.__init__(self, nbase=nbase, monitor=False, mem=False)
+
+    def scenario(self, rng, fmt, flt, opts, bpb, bil):
+        ops = ['new', f'fmt {fmt}'] + ([f'filter {flt}'] if flt != '-' else []) + [f'opt {o}' for o in opts] + [f'bpb {bpb}', f'bil {bil}', 'script', 'open']
+        if fmt == 'raw':
+            ops += [plain_header('only', 0), f'fill {rng.choice([1, 700, 5000])} {rng.randrange(256)}']
+        elif fmt in ('arbsd', 'arsvr4'):
+            ops += [plain_header('a.o', 5), 'fill 5 1', plain_header('longer_name_than_sixteen.o', 3), 'fill 3 7', plain_header('b.o', 0)]
+        else:
+            ops += [header(rng, 'dir', 0, 'dir'), plain_header('dir/file.txt', 3001), 'fill 3001 7', 'finish']
+            if fmt != 'warc':
+                ops += [header(rng, 'lnk', 0, 'dir/link'), header(rng, 'hard', 0, 'dir/hard')]
+            ops += [plain_header('dir/' + 'n' * rng.choice([5, 90, 120]), 513), f'fill 500 {rng.randrange(256)}', 'fill 13 1', plain_header('dir/empty', 0)]
+        return ops + ['close', 'free']
+
+    def gen0(self, rng, tier):
+        n = 1 if tier == 'quick' else 6
+        for fmt in ALL_FORMATS:
+            for r in range(n):
+                for flt in (['-'] if r or fmt not in ('ustar', 'newc', 'zip', 'raw') else DET_FILTERS):
+                    pool = DET_OPTS.get(fmt.split('-')[0], [])
+                    opts = [o for o in pool if rng.random() < 0.4] if r else []
+                    bpb, bil = rng.choice([512, 10240, 0, 7] if fmt in ('raw', 'ustar') else [512, 10240, 0]), rng.choice([-1, 0, 1, 512])
+                    yield Case(f'det-{fmt}-{flt}-{r}', self.scenario(rng, fmt, flt, opts, bpb, bil),
+                               {'fmt': fmt, 'filter': flt, 'bpb': bpb, 'bil': bil, 'kind': 'det'})
+        # the modelled layer with a short-writing callback: partial last blocks, buffer reuse
+        for i in range(self.nbase if tier == 'quick' else self.nbase * 10):
+            bpb, bil = rng.choice([3, 7, 512, 10240]), rng.choice(BILS + [3])
+            ops = ['new', f'fmt {rng.choice(["raw", "ustar"])}', f'bpb {bpb}', f'bil {bil}', 'script ' + ' '.join(rand_script(rng, 'short', 10)), 'open',
+                   plain_header('f', 1300)]
+            for k in chunk(rng, 1300, 'rand'):
+                ops.append(f'fill {k} {rng.randrange(256)}')
+            ops += ['close', 'free']
+            yield Case(f'det-blk{i}', ops, {'fmt': ops[1].split()[1], 'filter': '-', 'bpb': bpb, 'bil': bil, 'kind': 'short'})
+
+    def run_impl(self, exe, cases):
+        runs = []
+        err = ''
+        for heap, stack in POISONS:
+            self.env = {'ASAN_OPTIONS': f'detect_leaks=1:abort_on_error=0:exitcode=99:allocator_may_return_null=1:malloc_fill_byte={heap}:max_malloc_fill_size=1073741824',
+                        'VERIF_STACK_POISON': str(stack)}
+            out, e = Engine.run_impl(self, exe, cases)
+            runs.append(out); err += e[-2000:]
+        merged = []
+        for a, b in zip(*runs):
+            lines = []
+            for i in range(max(len(a), len(b))):
+                x = a[i] if i < len(a) else '<missing>'
+                y = b[i] if i < len(b) else '<missing>'
+                lines.append(x if x == y else f'NONDET a=[{x}] b=[{y}]')
+            merged.append(lines)
+        return merged, err
+
+    def oracle(self, case, impl):
+        for op, o in zip(case.ops, impl):
+            if o.startswith('NONDET') or 'VIOLATED' in o:
+                return f'writer output differs between two runs with different heap/stack poison at "{op.split()[0]}" (fmt={case.meta.get("fmt")} filter={case.meta.get("filter")}): {o[:200]}'
+        return Cw.oracle(self, case, impl)
+
+    def nontrivial(self, case, impl):
+        return any(re.search(r'acc=[1-9]', o) for o in impl)
